@@ -776,8 +776,41 @@ func c20R8(c *Ctx) {
 				return
 			}
 			L, isArr := arrayLen(base)
+			symbolic := false // the length is only known as len(base): bounds must be written in terms of it
 			if !isArr {
-				return
+				// a package-level table written as a slice literal: its length is len(base)
+				u, isLoad := strip(base).(*ssa.UnOp)
+				if !isLoad {
+					return
+				}
+				if _, isG := u.X.(*ssa.Global); !isG {
+					return
+				}
+				symbolic = true
+				L = 1 << 40
+			}
+			lenOfBase := func(v ssa.Value) bool {
+				lc, _ := callOf(v)
+				if lc == nil || calleeID(&lc.Call) != "builtin len" {
+					return false
+				}
+				a, ok1 := strip(lc.Call.Args[0]).(*ssa.UnOp)
+				b, ok2 := strip(base).(*ssa.UnOp)
+				return ok1 && ok2 && a.X == b.X
+			}
+			// upTo(v, d): v is a bound that guarantees index <= len - d (d = 0: v <= len; d = 1: v <= len-1)
+			upTo := func(v ssa.Value, d int64) bool {
+				if !symbolic {
+					return constLE(v, L-d)
+				}
+				if d == 0 && lenOfBase(v) {
+					return true
+				}
+				if bo, isB := strip(v).(*ssa.BinOp); isB && bo.Op == token.SUB && lenOfBase(bo.X) {
+					k, isC := constInt(bo.Y)
+					return isC && k >= d
+				}
+				return false
 			}
 			if k, isC := constInt(idx); isC {
 				_ = k // constant indexes are checked by the compiler
@@ -786,7 +819,7 @@ func c20R8(c *Ctx) {
 			n++
 			key := "index-in-range/" + c.fnName(f) + "/" + chanName(base)
 			// (guarded)
-			if factCmp(factsAt(in.Block()), token.LSS, isValue(idx), func(v ssa.Value) bool { return constLE(v, L) }) {
+			if factCmp(factsAt(in.Block()), token.LSS, isValue(idx), func(v ssa.Value) bool { return upTo(v, 0) }) {
 				c.ok(key, c.ipos(in), "dominated by index < bound <= length")
 				return
 			}
@@ -795,7 +828,7 @@ func c20R8(c *Ctx) {
 				good, why := true, ""
 				for k, e := range p.Edges {
 					if c0, isC := constInt(e); isC {
-						if c0 < 0 || c0 >= L {
+						if c0 < 0 || (!symbolic && c0 >= L) || (symbolic && c0 != 0) {
 							good, why = false, "starts out of range"
 						}
 						continue
@@ -807,15 +840,15 @@ func c20R8(c *Ctx) {
 					}
 					pred := p.Block().Preds[k]
 					fs := append(append([]fact{}, factsAt(b.Block())...), edgeFactsTo(pred, p.Block())...)
-					if !factCmp(fs, token.LSS, isValue(p), func(v ssa.Value) bool { return constLE(v, L-1) }) {
-						good, why = false, fmt.Sprintf("is incremented without an established bound index < K, K <= %d", L-1)
+					if !factCmp(fs, token.LSS, isValue(p), func(v ssa.Value) bool { return upTo(v, 1) }) {
+						good, why = false, "is incremented without an established bound index < K with K <= length - 1"
 					}
 				}
 				c.check(good, key, c.ipos(in), "loop counter bounded below the array length", "the index into a fixed-size array "+why+": it can reach the array's length (index out of range while rendering)")
 				return
 			}
 			// (ring index): a field
-			if _, fld, isF := fieldOf(idx); isF {
+			if _, fld, isF := fieldOf(idx); isF && !symbolic {
 				good, why := true, ""
 				nSt := 0
 				for _, g := range c.AllFns {
